@@ -675,6 +675,11 @@ var recCodec = ev.New(prop, "codec",
 		"payload == protocol layout computed with the reference AMF0 encoder, unmarshal into a fresh packet gives equal fields, re-marshal identical; non-trivial = nested AMF0 tree or optional/trailing field present").
 	Require("nested-amf0", "trailing-field", "kind:connect", "kind:connectRes", "kind:createStream", "kind:createStreamRes", "kind:publish", "kind:play", "kind:call", "kind:closeStream", "kind:scs", "kind:wack", "kind:spb", "kind:uc")
 
+// TestSideBySide: independent packets and histories on several goroutines at once.
+func TestSideBySide(t *testing.T) {
+	ev.Parallel(t, prop, "side-by-side", 4, 200, 100, genHistory, func(c HCase) error { _, e := runHistory(c); return e })
+}
+
 func TestCodec(t *testing.T) {
 	ev.Rapid(t, "codec", 10000, 600000, func(t *rapid.T) {
 		p := genPacket(t, allKinds)
@@ -1350,6 +1355,14 @@ func replayers() map[string]ev.Replayer {
 				return err
 			}
 			return checkCodec(p)
+		},
+		"side-by-side": func(raw json.RawMessage) error {
+			var c HCase
+			if err := json.Unmarshal(raw, &c); err != nil {
+				return err
+			}
+			_, e := runHistory(c)
+			return e
 		},
 		"history": func(raw json.RawMessage) error {
 			var c HCase
